@@ -9,6 +9,8 @@ VARIABLE v
 Init == v \in OligoOpts \/ v \in CgrOpts \/ v \in CovOpts \/ v \in MinOpts \/ v \in CtrOpts
 Next == UNCHANGED v
 Spec == Init /\ [][Next]_v
-Out == PrintT(<<"VEC", ToJson([o |-> v, accept |-> Accepts(v), wire |-> IF Accepts(v) THEN Wire(v) ELSE [lib |-> "none"]])>>)
+SeqOf(S) == LET f[T \in SUBSET S] == IF T = {} THEN <<>> ELSE LET x == CHOOSE y \in T : TRUE IN <<x>> \o f[T \ {x}] IN f[S]
+Out == PrintT(<<"VEC", ToJson([o |-> v, accept |-> Accepts(v), wire |-> IF Accepts(v) THEN Wire(v) ELSE [lib |-> "none"],
+                               src |-> SeqOf(SrcKinds(v)), dst |-> SeqOf(DstKinds(v)), spell |-> SeqOf(Spellings)])>>)
 Meta == MetaOf(v) /\ AcceptStable(v)
 =============================================================================
